@@ -220,6 +220,10 @@ class Net:
             t.fail_writes = True
             self.ev("envFailWrites", t.cid, 1)
         proto.connection_made(t)
+        if getattr(self, "block_first", False):
+            # a congested link from the first byte: the transport tells the protocol to pause writing at once
+            t.block_writes()
+            self.ev("envPause", t.cid, 1)
         return t, proto
 
     def open_conns(self):
